@@ -19,9 +19,9 @@ func init() {
 		Title: "table library keeps list semantics; sort gives an ordered permutation, no crash",
 		Explanation: "Decided (narrow): R18-swap — 'sort leaves a permutation of the original elements and calls lt only with elements of t': table.sort sorts the table's own array part in place through package sort; lValueArraySorter.Swap is a pure exchange (two element loads, the two crossed stores, nothing else) and Len is the slice length; Less hands exactly Values[i], Values[j] (in that order) to the comparator or to the VM's lessThan and returns the truth value of the single result; " +
 			"R18-delegate — table.insert/remove/getn/maxn/concat and unpack reach the list through the LTable list helpers (Append, Insert, Remove, Len, MaxN, RawGetInt) with the documented argument positions; R09-route shared (unpack/concat/ipairs read through RawGetInt, which now agrees with the setters). " +
-			"NOT decided: insert/remove shifting, concat ranges, ordering of the sorted result, behaviour under inconsistent comparators — list histories and comparator behaviour are run-time quantities.",
+			"R18-arrayowner — outside LTable's own methods the array part is read by nobody except table.sort, and there only as array[:Len()]: list functions take their length from the border (Len), never from the physical size of the array part, which may hold trailing nils. NOT decided: insert/remove shifting, concat ranges, ordering of the sorted result, behaviour under inconsistent comparators — list histories and comparator behaviour are run-time quantities.",
 		Trusted: []string{"package sort only rearranges through Swap (stdlib contract)"},
-		Rules:   []func(*Ctx){ruleSwap, ruleDelegate, ruleRoute},
+		Rules:   []func(*Ctx){ruleSwap, ruleDelegate, ruleRoute, ruleArrayReaders},
 	})
 	register(&propInfo{
 		ID:    "C20",
@@ -162,7 +162,11 @@ func ruleSwap(c *Ctx) {
 		okArr, okSort := false, false
 		allInstrs(fn, func(in ssa.Instruction) {
 			if st, ok := isFieldStore(in, valuesF); ok {
-				if _, ok := loadsField(st.Val, arrF); ok {
+				v := st.Val
+				if sl, ok := v.(*ssa.Slice); ok { // array[:Len()] shares the backing store: still in place
+					v = sl.X
+				}
+				if _, ok := loadsField(v, arrF); ok {
 					okArr = true
 				}
 			}
@@ -436,7 +440,7 @@ func ruleSentinel(c *Ctx) {
 
 func ruleOrder(c *Ctx) {
 	const R = "R20-order"
-	c.floor(R, 6)
+	c.floor(R, 7)
 	p := c.P
 	pk := p.Pkg("lua")
 	obj := p.Obj("lua", "loLoaders")
@@ -477,7 +481,24 @@ func ruleOrder(c *Ctx) {
 		same := func(a, b string) bool {
 			return byName[a] != nil && byName[b] != nil && stripMI(byName[a]) == stripMI(byName[b])
 		}
-		c.check(same("loaded", "_LOADED"), R, "OpenPackage:loaded=_LOADED", p.pos(fn.Pos()), "package.loaded and the registry's _LOADED are the same table", "package.loaded and _LOADED are different tables: modules cached by require are invisible to package.loaded (and vice versa)")
+		// package.loaded IS the registry's _LOADED table: either one value is stored under both names, or
+		// (the reference implementation's form) the value published as package.loaded is read from the
+		// registry's _LOADED and _LOADED is not replaced — only then do modules registered before the package
+		// library was opened stay reachable through require (F31)
+		findT := p.Fn("lua", "(*LState).FindTable")
+		fromRegistry := false
+		if v := byName["loaded"]; v != nil && byName["_LOADED"] == nil {
+			if cl, ok := stripMI(v).(*ssa.Call); ok && (cl.Call.StaticCallee() == findT || cl.Call.StaticCallee() == getField) {
+				for _, a := range cl.Call.Args {
+					if s, ok := constStr(a); ok && s == "_LOADED" {
+						fromRegistry = true
+					}
+				}
+			}
+		}
+		replaced := byName["_LOADED"] != nil
+		c.check(fromRegistry || same("loaded", "_LOADED"), R, "OpenPackage:loaded=_LOADED", p.pos(fn.Pos()), "package.loaded and the registry's _LOADED are the same table", "package.loaded and _LOADED are different tables: modules cached by require are invisible to package.loaded (and vice versa)")
+		c.check(!replaced, R, "OpenPackage:keeps-existing-_LOADED", p.pos(fn.Pos()), "the _LOADED table that already holds the host's modules is kept", "OpenPackage installs a fresh _LOADED table: every module registered before it (the package library itself, and the base library if it is opened first) disappears from package.loaded, so require(\"package\") reports 'module not found'")
 		c.check(same("loaders", "_LOADERS"), R, "OpenPackage:loaders=_LOADERS", p.pos(fn.Pos()), "package.loaders and _LOADERS are the same table", "package.loaders and _LOADERS differ")
 		c.check(byName["preload"] != nil, R, "OpenPackage:preload-table", p.pos(fn.Pos()), "package.preload exists", "package.preload is not created")
 		// loaders filled in list order
@@ -551,5 +572,56 @@ func ruleOrder(c *Ctx) {
 			}
 		}
 		c.check(okp, R, "loLoaderPreload:reads-package.preload", p.pos(fn.Pos()), "the preload searcher reads package.preload", "the preload searcher does not read package.preload")
+	}
+}
+
+
+// ruleArrayReaders: the array part of a table may be longer than the list it holds (t[#t] = nil leaves a
+// trailing nil slot). Library code must therefore go through Len()/RawGetInt; the only function outside
+// table.go that touches the slice is table.sort, which must sort array[:Len()].
+func ruleArrayReaders(c *Ctx) {
+	const R = "R18-arrayowner"
+	c.floor(R, 1)
+	p := c.P
+	arr := p.Field("lua", "LTable", "array")
+	lenM := p.Fn("lua", "(*LTable).Len")
+	if arr == nil || lenM == nil {
+		c.und(R, "anchors", "-", "LTable.array / (*LTable).Len not found")
+		return
+	}
+	for _, fn := range p.srcFuncs {
+		if fn.Pkg == nil || fn.Pkg.Pkg.Path() != luaPath || recvNamed(fn) == "LTable" || fn.Name() == "newLTable" {
+			continue
+		}
+		allInstrs(fn, func(in ssa.Instruction) {
+			fa, ok := in.(*ssa.FieldAddr)
+			if !ok || fieldOf(fa) != arr {
+				return
+			}
+			c.Sites++
+			key := "reader:" + fname(fn)
+			// every use of the loaded slice must be a slice expression bounded by Len() of the same table
+			okc := true
+			why := ""
+			for _, r := range *fa.Referrers() {
+				ld, isLoad := r.(*ssa.UnOp)
+				if !isLoad {
+					okc, why = false, "the array part is written"
+					continue
+				}
+				for _, u := range *ld.Referrers() {
+					sl, isSlice := u.(*ssa.Slice)
+					if !isSlice || sl.High == nil {
+						okc, why = false, "the whole array part is used"
+						continue
+					}
+					hc, isCall := stripConv(sl.High).(*ssa.Call)
+					if !isCall || hc.Call.StaticCallee() != lenM || hc.Call.Args[0] != fa.X {
+						okc, why = false, "the array part is not cut at Len()"
+					}
+				}
+			}
+			c.check(okc, R, key, p.ipos(in), "uses array[:Len()] only", fmt.Sprintf("%s reads LTable.array directly (%s): the physical array part can be longer than the list (t[#t] = nil leaves a trailing nil slot), so lengths and elements taken from it disagree with #t — unpack(t) returns extra nils, sort compares nil", fname(fn), why))
+		})
 	}
 }
